@@ -84,7 +84,7 @@ func rpClassify(n *ir.Node, saved map[string]string) *rpEvent {
 
 func RP(rc *RC, only func(file string) bool, floor int) {
 	rc.S.Declare("RP", "restore pairing: a temporary change of an operand's metadata (lazy transpose, swapped access pattern, reshape) that the function undoes is undone on every exit - no return between the mutation and its (possibly deferred) restore", floor)
-	for _, fi := range rc.P.SortedFuncs() {
+	for _, fi := range rc.P.AnalysisFuncs() {
 		if fi.Pkg != rc.P.Root || fi.Decl.Body == nil || strings.HasSuffix(fi.File, "_test.go") || strings.HasPrefix(fi.File, "sparse") || (only != nil && !only(fi.File)) {
 			continue
 		}
